@@ -263,6 +263,12 @@ class Host:
         if cut[0] == 'error' and is_sub and self.sub_steps == cut[1]:
             self.cut_fired = True
             return 'fail'
+        if cut[0] == 'error2' and is_sub and self.sub_steps in (cut[1], cut[1] + 1):
+            # the same kind of command fails twice in a row (a retry meets the failure again)
+            self.cut_fired_once = True
+            if self.sub_steps == cut[1] + 1:
+                self.cut_fired = True
+            return 'fail'
         return None
 
     def arm(self, cut):
@@ -272,7 +278,8 @@ class Host:
         self.cut_fired = False
 
     def disarm(self):
-        fired = self.cut_fired
+        fired = self.cut_fired or getattr(self, 'cut_fired_once', False)
+        self.cut_fired_once = False
         self.cut = None
         self.cut_fired = False
         self.kernel.dead = False
@@ -414,7 +421,7 @@ class Host:
                 raise
             interrupted = True
         except subproc.CalledProcessError:
-            if not (self.cut_fired and self.cut and self.cut[0] == 'error'):
+            if not ((self.cut_fired or getattr(self, 'cut_fired_once', False)) and self.cut and self.cut[0] in ('error', 'error2')):
                 raise
             interrupted = True
         finally:
@@ -525,7 +532,7 @@ class Host:
                     raise
                 interrupted = True
             except subproc.CalledProcessError:
-                if not (self.cut_fired and self.cut and self.cut[0] == 'error'):
+                if not ((self.cut_fired or getattr(self, 'cut_fired_once', False)) and self.cut and self.cut[0] in ('error', 'error2')):
                     raise
                 interrupted = True
         finally:
@@ -589,7 +596,7 @@ class Host:
                 raise
             status = 'interrupted'
         except subproc.CalledProcessError:
-            if not (self.cut_fired and self.cut and self.cut[0] == 'error'):
+            if not ((self.cut_fired or getattr(self, 'cut_fired_once', False)) and self.cut and self.cut[0] in ('error', 'error2')):
                 raise
             status = 'interrupted'
         finally:
